@@ -124,15 +124,15 @@ func (w *W) enc() []byte {
 	return out
 }
 
-func wUint(n uint64) *W  { return &W{M: 0, HW: -1, N: n} }
-func wNint(n uint64) *W  { return &W{M: 1, HW: -1, N: n} } // value -1-n
-func wBstr(b []byte) *W  { return &W{M: 2, HW: -1, B: b} }
-func wTstr(s string) *W  { return &W{M: 3, HW: -1, B: []byte(s)} }
-func wArr(xs ...*W) *W   { return &W{M: 4, HW: -1, Items: xs} }
-func wMap(kvs ...*W) *W  { return &W{M: 5, HW: -1, Items: kvs} }
+func wUint(n uint64) *W      { return &W{M: 0, HW: -1, N: n} }
+func wNint(n uint64) *W      { return &W{M: 1, HW: -1, N: n} } // value -1-n
+func wBstr(b []byte) *W      { return &W{M: 2, HW: -1, B: b} }
+func wTstr(s string) *W      { return &W{M: 3, HW: -1, B: []byte(s)} }
+func wArr(xs ...*W) *W       { return &W{M: 4, HW: -1, Items: xs} }
+func wMap(kvs ...*W) *W      { return &W{M: 5, HW: -1, Items: kvs} }
 func wTag(t uint64, x *W) *W { return &W{M: 6, HW: -1, N: t, Items: []*W{x}} }
-func wNull() *W          { return &W{M: 7, HW: 0, N: 22} }
-func wUndef() *W         { return &W{M: 7, HW: 0, N: 23} }
+func wNull() *W              { return &W{M: 7, HW: 0, N: 22} }
+func wUndef() *W             { return &W{M: 7, HW: 0, N: 23} }
 func wBool(b bool) *W {
 	if b {
 		return &W{M: 7, HW: 0, N: 21}
